@@ -156,6 +156,44 @@ impl Ctx {
             }
         }
     }
+    fn simple(&self, op: &str, n: usize) -> Result<VfsResult<()>, ()> {
+        match &self.w {
+            Target::Sync(w) => {
+                let p = self.cx.path(&w.root, &self.path);
+                guard(|| match op {
+                    "mkdir" => p.create_dir(),
+                    "rmdir" => p.remove_dir(),
+                    _ => p.set_creation_time(tick(n)),
+                })
+            }
+            Target::Async(w) => {
+                let p = crate::aworld::apath(&self.cx, &w.root, &self.path);
+                guard(|| w.rt.block_on(async {
+                    match op {
+                        "mkdir" => p.create_dir().await,
+                        "rmdir" => p.remove_dir().await,
+                        _ => p.set_creation_time(tick(n)).await,
+                    }
+                }))
+            }
+        }
+    }
+    fn md(&self) -> (i64, String, String) {
+        let r = match &self.w {
+            Target::Sync(w) => {
+                let p = self.cx.path(&w.root, &self.path);
+                guard(|| p.metadata())
+            }
+            Target::Async(w) => {
+                let p = crate::aworld::apath(&self.cx, &w.root, &self.path);
+                guard(|| w.rt.block_on(p.metadata()))
+            }
+        };
+        match r {
+            Ok(Ok(m)) => (abs_len(m.len, self.cx.b), if m.file_type == VfsFileType::Directory { "dir".into() } else { "file".into() }, time_str(m.created)),
+            _ => (-2, "none".into(), "none".into()),
+        }
+    }
     fn md_len(&self) -> i64 {
         let r = match &self.w {
             Target::Sync(w) => {
@@ -173,19 +211,19 @@ impl Ctx {
         }
     }
     fn fresh(&self) -> Value {
-        let len = self.md_len();
+        let (len, k, cr) = self.md();
         match self.open_r() {
-            Err(()) => json!({"c":"panic","v":[],"len":len}),
-            Ok(Err(e)) => json!({"c":class_of(&e),"v":[],"len":len}),
+            Err(()) => json!({"c":"panic","v":[],"len":len,"k":k,"cr":cr}),
+            Ok(Err(e)) => json!({"c":class_of(&e),"v":[],"len":len,"k":k,"cr":cr}),
             Ok(Ok(mut h)) => {
                 let mut b = vec![];
                 match guard(|| h.read_to_end(&mut b)) {
                     Err(()) => {
                         std::mem::forget(h);
-                        json!({"c":"panic","v":[],"len":len})
+                        json!({"c":"panic","v":[],"len":len,"k":k,"cr":cr})
                     }
-                    Ok(Err(_)) => json!({"c":"err","v":[],"len":len}),
-                    Ok(Ok(_)) => json!({"c":"ok","v":abs_bytes(&b, self.cx.b),"len":len}),
+                    Ok(Err(_)) => json!({"c":"err","v":[],"len":len,"k":k,"cr":cr}),
+                    Ok(Ok(_)) => json!({"c":"ok","v":abs_bytes(&b, self.cx.b),"len":len,"k":k,"cr":cr}),
                 }
             }
         }
@@ -344,6 +382,15 @@ impl Ctx {
                 (cls.into(), json!(abs_bytes(&buf[..got], b)))
             }
             "remove" => (vfs_cls(self.remove()), json!([])),
+            "mkdir" | "rmdir" | "set_cr" => {
+                let r = self.simple(op, o["n"].as_u64().unwrap_or(0) as usize);
+                let c = match r {
+                    Err(()) => "panic".to_string(),
+                    Ok(Err(e)) => class_of(&e).to_string(),
+                    Ok(Ok(())) => "ok".to_string(),
+                };
+                (c, json!([]))
+            }
             other => panic!("unknown handle op {other}"),
         }
     }
@@ -410,7 +457,8 @@ pub fn run(lts: &HLts, o: &HOpts) -> Value {
             Target::Sync(w)
         };
         let mut ctx = Ctx { w, cx, path: path.clone(), wh: None, rh: None };
-        out.begin(&json!({"ev":"hinit","cfg":o.cfg,"names":o.names,"b":o.b,"path":path,"file0":file0}));
+        let sup: Vec<&str> = if is_async { crate::aworld::asup(&term) } else { term.sup() };
+        out.begin(&json!({"ev":"hinit","cfg":o.cfg,"names":o.names,"b":o.b,"path":path,"file0":file0,"sup":sup}));
         for step in 0..o.len {
             let st = &lts.states[cur];
             let app = st["w"]["app"] == true;
@@ -432,7 +480,11 @@ pub fn run(lts: &HLts, o: &HOpts) -> Value {
             let e = &lts.edges[cur][ei];
             let (cls, v) = ctx.exec(&e.o);
             let fresh = ctx.fresh();
-            out.put(&json!({"ev":"hcall","o":e.o,"res":{"c":cls,"v":v},"fresh":fresh}));
+            let mut oj = e.o.clone();
+            if oj["op"] == "set_cr" {
+                oj["tv"] = json!(time_str(Some(tick(oj["n"].as_u64().unwrap_or(0) as usize))));
+            }
+            out.put(&json!({"ev":"hcall","o":oj,"res":{"c":cls,"v":v},"fresh":fresh}));
             steps += 1;
             let ok = e.allowed.iter().any(|a| *a == cls) && (cls != "ok" || e.o["op"] == "read" && v == e.v || e.o["op"] != "read" && (e.v.as_array().map(|a| a.is_empty()).unwrap_or(true) || v == e.v));
             if !ok {
@@ -454,7 +506,7 @@ pub fn run(lts: &HLts, o: &HOpts) -> Value {
         // drop whatever is still open (a panic here is recorded as one more event)
         if let Some(h) = ctx.wh.take() {
             if guard(move || drop(h)).is_err() {
-                out.put(&json!({"ev":"hcall","o":{"op":"xseek","c":[],"wh":"","off":0,"n":99},"res":{"c":"panic","v":[]},"fresh":{"c":"skip","v":[],"len":0}}));
+                out.put(&json!({"ev":"hcall","o":{"op":"xseek","c":[],"wh":"","off":0,"n":99},"res":{"c":"panic","v":[]},"fresh":{"c":"skip","v":[],"len":0,"k":"none","cr":"none"}}));
             }
         }
     }
